@@ -227,3 +227,44 @@ class GhostUfo:
         g = GhostGlyph(name)
         self.glyphs[name] = g
         return g
+
+
+class GhostFont:
+    """stand-in for ttLib.TTFont where only the table mapping and glyph names matter"""
+
+    def __init__(self, names, tables):
+        self.names = names
+        self.tables = tables
+
+    def __setitem__(self, tag, table):
+        self.tables[tag] = table
+
+    def __getitem__(self, tag):
+        return self.tables[tag]
+
+    def __contains__(self, tag):
+        return tag in self.tables
+
+    def getGlyphName(self, gid):
+        return self.names[gid]
+
+
+class GhostPNG:
+    """stand-in for nanoemoji.png.PNG (a bytes subclass): pixel size and byte length"""
+
+    def __init__(self, size, n):
+        self.size = size
+        self.n = n
+
+    def __len__(self):
+        return self.n
+
+
+class GhostTransformPaint:
+    """what Paint.from_ot yields for a transform paint, as far as callers look: its affine"""
+
+    def __init__(self, m):
+        self.m = m
+
+    def gettransform(self):
+        return self.m
